@@ -16,18 +16,18 @@ pub const PFORMS: [&[Seg]; 15] = [
     &["super", "super"],
     // lite
     &["super", "pkg"],
+    &["pkg", "a", "c"],
     &["pkg"],
     &["a", "c"],
     &["b"],
     &["c"],
-    &["pkg", "a", "c"],
     &["super", "a"],
     &["super", "super", "b"],
     &["a", "a"],
     &["pkg", "super"],
 ];
 pub const FULL_PFORMS: usize = 5;
-pub const QUICK_PFORMS: usize = 8;
+pub const QUICK_PFORMS: usize = 7;
 
 #[derive(Clone, Copy, PartialEq, Eq, Debug)]
 pub enum Shadow {
@@ -99,9 +99,18 @@ pub enum ImpKind {
     ChainFwd,
     /// `import <name of P>.X; import P;` then `X` (needs a second round)
     ChainRev,
+    /// for P = Q.m: `import m.X; import <name of Q>.m; import Q;` then `X`
+    /// (needs a third round when neither Q's name nor m is visible otherwise)
+    Chain3Rev,
 }
-const IMPKINDS: [ImpKind; 5] =
-    [ImpKind::Single, ImpKind::List, ImpKind::Module, ImpKind::ChainFwd, ImpKind::ChainRev];
+const IMPKINDS: [ImpKind; 6] = [
+    ImpKind::Single,
+    ImpKind::List,
+    ImpKind::Module,
+    ImpKind::ChainFwd,
+    ImpKind::ChainRev,
+    ImpKind::Chain3Rev,
+];
 
 #[derive(Clone, Debug)]
 pub enum Unit {
@@ -119,14 +128,20 @@ pub fn n_pforms(tier: Tier) -> usize {
     tier.pick(QUICK_PFORMS, PFORMS.len())
 }
 
-/// shadows combined with imports (group >= 1)
-pub fn import_shadows(tier: Tier, group: usize) -> &'static [Shadow] {
-    if group > FULL_PFORMS {
+/// shadows combined with imports (group >= 1); group 0 has all of them
+pub fn import_shadows(tier: Tier, group: usize, kind: Kind) -> &'static [Shadow] {
+    if group > FULL_PFORMS || kind == Kind::RecLit {
         return &[Shadow::None];
     }
     match tier {
-        Tier::Quick => &[Shadow::None, Shadow::LetInnerFirst, Shadow::ParamFirst],
-        Tier::Thorough => &SHADOWS,
+        Tier::Quick => &[Shadow::None, Shadow::LetInnerFirst],
+        Tier::Thorough => &[
+            Shadow::None,
+            Shadow::LetInnerFirst,
+            Shadow::LetOuterFirst,
+            Shadow::ParamFirst,
+            Shadow::PatternFirst,
+        ],
     }
 }
 
@@ -310,6 +325,9 @@ pub fn probes(world: &World, site: usize, kind: Kind, group: usize, tier: Tier) 
     }
     let pf: &[Seg] = PFORMS[group - 1];
     for ik in IMPKINDS {
+        if ik == ImpKind::Chain3Rev && (pf.len() < 2 || *pf.last().unwrap() == "super") {
+            continue;
+        }
         for nest in NESTS {
             for pl in PLACES {
                 if !place_ok(pl, nest, site) {
@@ -333,10 +351,22 @@ pub fn probes(world: &World, site: usize, kind: Kind, group: usize, tier: Tier) 
                         vec![ImportStmt::Single(vec![bind, x]), ImportStmt::Single(pf.to_vec())],
                         vec![x],
                     ),
+                    ImpKind::Chain3Rev => {
+                        let q = &pf[..pf.len() - 1];
+                        let qname = bind_name(world, from, q);
+                        (
+                            vec![
+                                ImportStmt::Single(vec![bind, x]),
+                                ImportStmt::Single(vec![qname, bind]),
+                                ImportStmt::Single(q.to_vec()),
+                            ],
+                            vec![x],
+                        )
+                    }
                 };
                 let mut base = Prog::new(site, nest, kind, use_path.clone());
                 apply_place(&mut base, pl, stmts.clone(), world);
-                for &sh in import_shadows(tier, group) {
+                for &sh in import_shadows(tier, group, kind) {
                     if !shadow_ok(sh, nest, &base.use_path) {
                         continue;
                     }
